@@ -2,7 +2,7 @@ import CsVerif.Model.C01
 /-! Line-protocol driver for the C01 model.
 
   ext    <b|F|f> <B> <allkeys T|F> <keys> <data> <expect>     → ok <xorkey> <T|F> <len>.<ck> <n> <setting>… | exc <E>
-         `BeaconConfig.from_bytes / from_file` (`b`, `F` = io.BytesIO) or `from_path` (`f` = OS file); the detector answer, the
+         `BeaconConfig.from_bytes / from_file` (`b`, `F<pos>` = io.BytesIO, the latter standing at `pos` when passed in) or `from_path` (`f` = OS file); the detector answer, the
          position a failed detection leaves and the residual key order are computed by `detectRun` / `leftKeys`;
          `<expect>` (ground truth of the harness' builder) is ignored here.
   blocks <b|f> <B> <xordecode T|F> <allkeys T|F> <keys> <data> → <n> (<xorkey>:<T|F>:<len>.<ck>)* end | … exc <E>
@@ -16,8 +16,14 @@ import CsVerif.Model.C01
 namespace C01
 open Proto
 
-def kindTok (s : String) : Option FileKind :=
-  if s == "b" || s == "F" then some .bytesIO else if s == "f" then some .osFile else none
+/-- `b` = from_bytes, `F<pos>` = from_file on a BytesIO standing at `pos`, `f` = from_path (OS file) -/
+def kindTok (s : String) : Option (FileKind × Nat) :=
+  if s == "b" then some (.bytesIO, 0)
+  else if s == "f" then some (.osFile, 0)
+  else
+    match s.toList with
+    | 'F' :: rest => if rest.isEmpty then some (.bytesIO, 0) else (String.ofList rest).toNat?.map fun p => (.bytesIO, p)
+    | _ => none
 
 def keyTok (s : String) : Option Bytes :=
   if s == "-" then some [] else Hex.decode s
@@ -83,14 +89,14 @@ def step : List String → String
   | ["ext", k, b, ak, ks, d, _expect] =>
     match kindTok k, natTok b, boolTok ak, keysTok ks, bytesTok d with
     | some k, some b, some ak, some ks, some d =>
-      if b = 0 then "bad-op" else showPy showResult (runExt b { data := d, pos := 0, kind := k } ks ak)
+      if b = 0 then "bad-op" else showPy showResult (runExt b { data := d, pos := k.2, kind := k.1 } ks ak)
     | _, _, _, _, _ => "bad-op"
   | ["blocks", k, b, xd, ak, ks, d] =>
     match kindTok k, natTok b, boolTok xd, boolTok ak, keysTok ks, bytesTok d with
     | some k, some b, some xd, some ak, some ks, some d =>
       if b = 0 ∨ (!xd ∧ ak) then "bad-op"
       else
-        match runBlocks b { data := d, pos := 0, kind := k } ks xd ak with
+        match runBlocks b { data := d, pos := k.2, kind := k.1 } ks xd ak with
         | .ok r => showBlocks r
         | .error e => "exc " ++ e.name
     | _, _, _, _, _, _ => "bad-op"
@@ -110,7 +116,7 @@ def step : List String → String
     | some k, some b, some ks, some d =>
       if b = 0 then "bad-op"
       else
-        let f : PyFile := { data := d, pos := 0, kind := k }
+        let f : PyFile := { data := d, pos := k.2, kind := k.1 }
         match detOf b f with
         | .error e => "exc " ++ e.name
         | .ok (det, failPos) =>
